@@ -66,7 +66,7 @@ func (rule *RuleEvents) checkCron(spec *String) {
 	sched, err := p.Parse(spec.Value)
 	if err != nil {
 		// The error message may contain the spec as-is. Do not break the message into multiple lines
-		msg := strings.ReplaceAll(err.Error(), "\n", " ")
+		msg := replaceLineBreaks(err.Error())
 		rule.Errorf(spec.Pos, "invalid CRON format %q in schedule event: %s", spec.Value, msg)
 		return
 	}
